@@ -3,6 +3,7 @@
 package analysis
 
 import (
+	"errors"
 	"fmt"
 	"go/ast"
 	"go/token"
@@ -97,6 +98,9 @@ scan:
 // to repeated `LoadSource` calls.
 // It also returns the common (root) directory for all the files.
 func LoadSources(sourceFiles []string) ([]*packages.Package, string, error) {
+	if len(sourceFiles) == 0 {
+		return nil, "", errors.New("no source file to load")
+	}
 	patterns := make([]string, len(sourceFiles))
 	dirs := make([]string, len(sourceFiles))
 
